@@ -21,7 +21,28 @@ def run(tier, prop="C15", rules=("C15.R1", "C15.R2", "C15.R3"), floors=None):
             res.inst(f.rule, f.desc)
         else:
             res.violate(f.rule, f.where, f.construct, f.msg, file=f.file, line=f.line)
-    for r, n in (floors or {"C15.R1": 2, "C15.R2": 2, "C15.R3": 3}).items():
+    if prop == "C15":
+        # R4: a key that has a validator is decided by the validator alone (C16.R6), so an expected value registered for it with check_claim is
+        # not compared: the batteries-included parser therefore must not register validators beyond the two time checks it documents
+        from . import _validators as VL
+        from .. import mir as M
+        b = VL.default_body(facts)
+        if b is None:
+            res.oblige(False)
+            res.violate("C15.R4", "PasetoParser::default", "anchor missing", "impl Default for PasetoParser not found")
+        else:
+            v, regs = VL.registrations(facts, b)
+            keys = sorted(str(r["key"]) for r in regs)
+            ok = keys == ["exp", "nbf"]
+            res.oblige(ok)
+            if ok:
+                res.inst("C15.R4", "PasetoParser::default registers validators for exactly %s: every other key set with check_claim is compared by value" % keys)
+            else:
+                extra = [r for r in regs if r["key"] not in ("exp", "nbf")]
+                res.violate("C15.R4", b["id"], "default validator for %s" % (", ".join(str(r["key"]) for r in extra) or "a changed key set"),
+                            "the default parser registers validators for %s; an expected value given with check_claim for such a key is no longer compared with the token's value (a validator takes the place of the comparison)" % keys,
+                            file=v.file(), line=(extra[0]["ln"] if extra else b["line"]))
+    for r, n in (floors or {"C15.R1": 2, "C15.R2": 2, "C15.R3": 3, "C15.R4": 1}).items():
         res.floor(r, n)
     res.explanation = ("CFG must-pass-through inside the loop of GenericParser::verify_claims: the loop ranges over the whole expected-claim map and Ok is returned only after its exhaustion; for a key without validator an iteration "
                        "completes only through the not-null edge and the equal edge of serde_json Value comparisons between expected[key] and json[key] of the authenticated payload (failing edges end in Err); "
